@@ -172,3 +172,17 @@ func (ss *session) evalObj(src string) (res object.Object) {
 	}
 	return obj
 }
+
+// refSessionUsable runs the statements one by one on a reference interpreter (an error in one input does not stop
+// the following ones, like in a REPL session) and reports whether the session is usable for differential monitors:
+// terminating within budget and outside the region of the in-place aliasing finding (where values may become cyclic).
+func refSessionUsable(stmts []*gt.Node) bool {
+	ref := gt.NewRef()
+	for _, s := range stmts {
+		ref.Run([]*gt.Node{s})
+		if ref.Exhausted || ref.BigInPlace {
+			return false
+		}
+	}
+	return true
+}
